@@ -323,8 +323,8 @@ func c08DestroyScenarios(P int) []Scenario {
 			}
 		}
 		pp := P
-		if len(ks) > 2 {
-			pp = P - 1
+		if len(ks) > 2 || i%2 == 0 {
+			pp = P - 1 // three requests, or a second connection: one preemption fewer
 		}
 		out = append(out, c08Progress(c08Params{Kinds: ks, Parked: parked, Release: parked, TwoConns: i%2 == 0, Maxpend: i % 3, Dotu: i%2 == 1, P: pp}))
 	}
@@ -335,7 +335,11 @@ func c08DestroyScenarios(P int) []Scenario {
 // its blocked writer, with every Maxpend): the second connection is served meanwhile
 func c08SlowScenarios(P int) []Scenario {
 	var out []Scenario
-	for i, ks := range [][]string{{"stat", "read"}, {"clunk", "walk"}, {"read", "write", "stat"}} {
+	sets := [][]string{{"stat", "read"}, {"clunk", "walk"}, {"write", "stat"}}
+	if P > 2 {
+		sets = append(sets, []string{"read", "write", "stat"})
+	}
+	for i, ks := range sets {
 		pp := P - 1
 		out = append(out, c08Progress(c08Params{Kinds: ks, TwoConns: true, SlowFirst: true, Maxpend: i % 3, Dotu: i%2 == 1, P: pp}))
 		out = append(out, c08Progress(c08Params{Kinds: ks, Parked: []int{0}, Release: []int{0}, TwoConns: true, SlowFirst: true, Maxpend: (i + 1) % 3, Dotu: i%2 == 0, P: pp}))
